@@ -102,7 +102,11 @@ type dsWorld struct {
 	holder         map[string]int64 // publisher name -> gid released past sync.lock last
 	passedSem      map[int64]bool
 	semStep        map[int64]int64
-	asyncFor       map[int64]string // async goroutine -> publisher
+	asyncFor       map[int64]string  // async goroutine -> publisher
+	latestAtTook   map[int64]cid.Cid // async goroutine -> latest-sync when it took its announcement
+	tookStep       map[int64]int64
+	asyncStarted   map[int64]int64 // async goroutine that entered the sync proper -> step
+	notifiedBy     map[int64]int   // notifications sent per goroutine
 	closeCalled    bool
 	closeRetStep   int64
 	closeReturns   int
@@ -218,7 +222,8 @@ func (l *dsListener) read() {
 func runDsync(r *simkit.Run, c Cfg, mode dsMode) {
 	tp := r.Tape
 	w := NewWorld(r)
-	d := &dsWorld{w: w, r: r, mode: mode, taskGID: map[int64]string{}, holder: map[string]int64{}, passedSem: map[int64]bool{}, semStep: map[int64]int64{}, asyncFor: map[int64]string{}}
+	d := &dsWorld{w: w, r: r, mode: mode, taskGID: map[int64]string{}, holder: map[string]int64{}, passedSem: map[int64]bool{}, semStep: map[int64]int64{}, asyncFor: map[int64]string{},
+		asyncStarted: map[int64]int64{}, notifiedBy: map[int64]int{}, latestAtTook: map[int64]cid.Cid{}, tookStep: map[int64]int64{}}
 
 	// swarm: a random subset of yield sites is active in this run
 	sites := map[string]bool{}
@@ -236,7 +241,7 @@ func runDsync(r *simkit.Run, c Cfg, mode dsMode) {
 		}
 	}
 	// these two carry oracle bookkeeping and are always on
-	sites["event.send"], sites["event.senderr"], sites["async.sem"] = true, true, true
+	sites["event.send"], sites["event.senderr"], sites["async.sem"], sites["async.took"] = true, true, true, true
 	sites["listener.add"], sites["listener.cancel"] = true, true
 	if mode.closing {
 		// needed to keep shutdown races out of runtime select coins (see
@@ -504,11 +509,28 @@ func runDsync(r *simkit.Run, c Cfg, mode dsMode) {
 		case "sync.lock":
 			return &simkit.Action{Name: "release sync.lock|" + p.Who, Weight: 2, Do: func() {
 				d.holder[p.Who] = p.GID
+				if _, ok := d.asyncFor[p.GID]; ok {
+					// an announce-triggered sync that found work to do
+					d.asyncStarted[p.GID] = r.Step()
+				}
 				r.Release(p, nil)
 			}}
 		case "async.entry", "async.lock":
 			return &simkit.Action{Name: "release " + p.Site + "|" + p.Who, Weight: 2, Do: func() {
 				d.asyncFor[p.GID] = p.Who
+				r.Release(p, nil)
+			}}
+		case "async.took":
+			return &simkit.Action{Name: "release async.took|" + p.Who, Weight: 2, Do: func() {
+				d.asyncFor[p.GID] = p.Who
+				// the sync reads its stop point right after this point:
+				// remember what latest-sync is now
+				for _, pub := range d.pubs {
+					if pub.Name == p.Who {
+						d.latestAtTook[p.GID] = d.sub.Latest(pub)
+						d.tookStep[p.GID] = r.Step()
+					}
+				}
 				r.Release(p, nil)
 			}}
 		case "async.sem":
@@ -522,6 +544,7 @@ func runDsync(r *simkit.Run, c Cfg, mode dsMode) {
 			return &simkit.Action{Name: "release " + p.Site + "|" + p.Who, Weight: 2, Do: func() {
 				ev := evSend{peer: p.Who, err: p.Site == "event.senderr", step: r.Step(), gid: p.GID}
 				d.sends = append(d.sends, ev)
+				d.notifiedBy[p.GID]++
 				d.evInFlight++
 				delete(d.passedSem, p.GID)
 				r.Release(p, nil)
@@ -885,6 +908,22 @@ func (d *dsWorld) finalChecks() {
 			failed[w.Names.Name(string(e.PeerID))] = true
 		}
 	}
+	// --- C08: an announce-triggered sync whose announced head was already the
+	// latest synced advertisement when it took the announcement has nothing
+	// to do: it must not walk the chain again. (This is not the known finding:
+	// there the stop point is stale or the announced head is older than it.)
+	for _, sy := range order {
+		if d.mode.name != "c08" {
+			break
+		}
+		if sy.explicit || len(sy.calls) == 0 {
+			continue
+		}
+		if at, ok := d.latestAtTook[sy.key.gid]; ok && at.Defined() && sy.calls[0].Cid == at && sy.calls[0].Step > d.tookStep[sy.key.gid] {
+			r.Violate(o+".redundant", "an announce-triggered sync of %s walked the chain from %s although that advertisement was already the latest synced when the sync took its announcement: %d advertisements reported again", sy.pub, w.CidName(at), len(sy.calls))
+			break
+		}
+	}
 	for _, pub := range d.pubs {
 		if d.mode.name != "c08" {
 			break // these oracles belong to C08
@@ -932,8 +971,8 @@ func (d *dsWorld) finalChecks() {
 					break
 				}
 			}
-			for c, n := range count {
-				if i := pub.AdIndex(c); i > li && n > 0 {
+			for i := len(pub.Ads) - 1; i > li; i-- { // fixed order: map iteration would name a random one
+				if c := pub.Ads[i]; count[c] > 0 {
 					r.Violate(o+".once", "advertisement %s was reported but latest-sync is only %s%s", w.CidName(c), w.CidName(latest), stale)
 					break
 				}
@@ -956,6 +995,21 @@ func (d *dsWorld) finalChecks() {
 			if latest != last.c && !errEv {
 				r.Violate(o+".lost", "activity ceased but %s's latest-sync is %s while its last delivered announcement was %s, and no error notification for it was delivered%s", pub.Name, w.CidName(latest), w.CidName(last.c), stale)
 			}
+		}
+	}
+	// --- C14: every announce-triggered sync that got as far as the sync proper
+	// (it had taken its announcement, found work to do and waited for the
+	// publisher's lock) ends in exactly one notification, success or failure,
+	// also when it fails because the subscriber is closing.
+	var startedG []int64
+	for g := range d.asyncStarted {
+		startedG = append(startedG, g)
+	}
+	sort.Slice(startedG, func(i, j int) bool { return d.asyncStarted[startedG[i]] < d.asyncStarted[startedG[j]] })
+	for _, g := range startedG {
+		if n := d.notifiedBy[g]; n != 1 {
+			r.Violate(o+".unnotified", "an announce-triggered sync of %s that started at step %d ended with %d notifications (want exactly one, success or failure)", d.asyncFor[g], d.asyncStarted[g], n)
+			break
 		}
 	}
 	// --- C14: the first-registered listener saw exactly the notifications
